@@ -81,6 +81,7 @@ func c16Case(c *lib.Ctx, idx uint64) {
 		Redefine:  20,
 		BigEndian: 50,
 		Unknown:   70,
+		BigFileId: 4,
 		MaxFields: 4,
 		Narrow:    5,
 		// compressed-timestamp headers on known and unknown messages: whatever the
